@@ -21,7 +21,8 @@ RULE = ('cases: a valid string from the grammar generators (with fragment defini
         'second node/atom; distinct = distinct set of faulty strings')
 ASSUMPTIONS = ['the fault-free string is accepted (checked on every case, a rejected base string is a violation too)']
 
-FAULTS = ['dangling', 'dangling', 'duplicate', 'duplicate', 'undefined', 'annot_base', 'annot_coarse', 'annot_atom']
+FAULTS = ['dangling', 'dangling', 'duplicate', 'duplicate', 'undefined', 'undefined', 'annot_base', 'annot_coarse',
+          'annot_atom', 'dangling_frag', 'duplicate_frag']
 EXC = {'two_eq': 'SyntaxError', 'too_many': 'SyntaxError', 'non_numeric': 'TypeError'}
 
 FUZZ = dict(campaigns=8, runs=6000)
@@ -30,7 +31,7 @@ FUZZ = dict(campaigns=8, runs=6000)
 def budget(tier):
     if tier == 'thorough':
         return dict(examples=10000, shards=16, procs=16)
-    return dict(examples=2000, shards=4, procs=4)
+    return dict(examples=1600, shards=4, procs=4)
 
 
 def _used_rids(ast):
@@ -122,11 +123,24 @@ def _bad_annotation(R, level):
 def gen(R, tier):
     fault = R.choice(FAULTS)
     variants = []
+    in_fragment = fault.endswith('_frag')
+    if in_fragment:
+        fault = fault[:-5]
+
+    def wrap(ast_):
+        # the faulty graph as the only coarse fragment of a two-level string (pattern without braces)
+        if not in_fragment:
+            return gram.render(ast_)
+        return '{[#X]}.{#X=[$]' + gram.render_chain(ast_) + '}'
     if fault in ('dangling', 'duplicate', 'annot_base'):
-        ast = _base_ast(R, allow_mult=(fault == 'dangling'))
+        ast = _base_ast(R, allow_mult=(fault == 'dangling' and not in_fragment))
         if ast is None:
             return None
-        base = gram.render(ast)
+        if in_fragment:
+            # annotations of the base-graph dialect (q, w) do not belong into a fragment
+            for nd_ in gram.all_nodes(ast):
+                nd_.annot, nd_.attrs = '', {}
+        base = wrap(ast)
         nodes = list(gram.all_nodes(ast))
         if fault == 'dangling':
             pct = R.chance(0.4)
@@ -143,8 +157,9 @@ def gen(R, tier):
                 n2.rings.append([o, rid, _marker(rid, pct)])
                 gram._order_markers(n2)
                 _confirm_invalid(a2)
-                variants.append(dict(input=gram.render(a2), call='read', exc='SyntaxError', pos=i,
-                                     fault='dangling ring marker %s at node %d' % (_marker(rid, pct), i)))
+                variants.append(dict(input=wrap(a2), call='frag' if in_fragment else 'read', exc='SyntaxError', pos=i,
+                                     coarse=True, fault='dangling ring marker %s at node %d%s' % (
+                                         _marker(rid, pct), i, ' of a coarse fragment' if in_fragment else '')))
         elif fault == 'duplicate':
             _, edges = gram.interpret(ast)
             pct = R.chance(0.4)
@@ -158,8 +173,9 @@ def gen(R, tier):
                 gram._order_markers(n2[a])
                 gram._order_markers(n2[b])
                 _confirm_invalid(a2)
-                variants.append(dict(input=gram.render(a2), call='read', exc='SyntaxError', pos=b,
-                                     fault='ring bond %s duplicating edge %d-%d' % (_marker(rid, pct), a, b)))
+                variants.append(dict(input=wrap(a2), call='frag' if in_fragment else 'read', exc='SyntaxError', pos=b,
+                                     coarse=True, fault='ring bond %s duplicating edge %d-%d%s' % (
+                                         _marker(rid, pct), a, b, ' of a coarse fragment' if in_fragment else '')))
         else:
             kind, text = _bad_annotation(R, 'base')
             for i, nd in enumerate(nodes):
@@ -203,8 +219,13 @@ def gen(R, tier):
                     continue
                 a2 = copy.deepcopy(ast)
                 list(gram.all_nodes(a2))[i].name = 'UNDEF'
+                gn, ge = gram.interpret(a2)
+                order = list(range(len(gn)))
+                R.shuffle(order)
                 variants.append(dict(input=gram.render(a2) + '.' + fragstr(frags), call='resolve',
                                      coarse=coarse, exc='SyntaxError', pos=i,
+                                     graph=dict(nodes=[[k, gn[k][0]] for k in order], edges=[[a, b, o] for (a, b), o in ge.items()],
+                                                frags=fragstr(frags)),
                                      fault='node %d renamed to a fragment that is not defined' % i))
         else:
             kind, text = _bad_annotation(R, 'frag')
@@ -228,6 +249,8 @@ def gen(R, tier):
         feats.add('with_multiplier')
     if '(' in base:
         feats.add('with_branch')
+    if in_fragment:
+        feats = {fault + '_in_coarse_fragment'} | (feats - {fault})
     return dict(input=base, variants=variants, fault=fault, features=sorted(feats),
                 base_call=variants[0]['call'], base_coarse=variants[0].get('coarse', False))
 
@@ -276,12 +299,41 @@ def _call(kind, text, coarse):
     return MoleculeResolver.from_string(text, last_all_atom=not coarse).resolve_all()
 
 
+def _call_graph(spec, coarse):
+    import networkx as nx
+    from cgsmiles import MoleculeResolver
+    g = nx.Graph()
+    for k, name in spec['nodes']:
+        g.add_node(k, fragname=name)
+    for a, b, o in spec['edges']:
+        g.add_edge(a, b, order=o)
+    return MoleculeResolver.from_graph(spec['frags'], g, last_all_atom=not coarse).resolve_all()
+
+
 def oracle(case):
     from cgsmiles import read_fragments
     # the fault-free string must be accepted
-    sut(_call, case['base_call'], case['input'], case['base_coarse'])
+    sut(_call, 'resolve' if case['base_call'] == 'frag' else case['base_call'], case['input'], case['base_coarse'])
     for v in case['variants']:
-        calls = [(v['call'], v['input'], v.get('coarse', False))]
+        calls = [('resolve' if v['call'] == 'frag' else v['call'], v['input'], v.get('coarse', False))]
+        if v['call'] == 'frag':
+            block = v['input'].split('.', 1)[1]
+            try:
+                sut(read_fragments, block, all_atom=False)
+            except SutError as e:
+                expect(e.type == v['exc'], 'fault:wrong-exception',
+                       lambda: 'read_fragments: %s: expected %s, got %s (%s)' % (v['fault'], v['exc'], e.sig, e.msg))
+            else:
+                raise Fail('fault:accepted', 'read_fragments: %s: no error for %s' % (v['fault'], block))
+        if 'graph' in v:
+            try:
+                sut(_call_graph, v['graph'], v.get('coarse', False))
+            except SutError as e:
+                expect(e.type == v['exc'], 'fault:wrong-exception',
+                       lambda: 'from_graph: %s: expected %s, got %s' % (v['fault'], v['exc'], e.sig))
+            else:
+                raise Fail('fault:accepted', 'from_graph (nodes inserted as %r): %s: no error, a graph was returned' % (
+                    [k for k, _ in v['graph']['nodes']], v['fault']))
         for kind, text, coarse in calls:
             try:
                 res = sut(_call, kind, text, coarse)
